@@ -75,20 +75,15 @@ theorem eq_types_k (its iks : Bool) (k : List MType → Except PyErr (Heap × Li
   cases its <;> cases iks <;> simp only [hrem1, hrem2, hrem3, ViewTieL.ok_bind, if_true, Bool.false_eq_true, if_false] <;> exact hk
 
 theorem equals_spec (h0 : Heap) (self other : List Nat) (ich its iks ivel : Bool)
-    (hs : ∀ r ∈ self, r < h0.length) (ho : ∀ r ∈ other, r < h0.length) (hok : ∀ m ∈ h0, m.ch ≠ pyNone)
-    (hda : pairings (eqTypes its iks) Gen.ppqn true (deref h0 self) = [] ∨
-      0 < ((pairings (eqTypes its iks) Gen.ppqn true (deref h0 self)).map (fun c => c.2.length)).sum)
-    (hdb : pairings (eqTypes its iks) Gen.ppqn true (deref h0 other) = [] ∨
-      0 < ((pairings (eqTypes its iks) Gen.ppqn true (deref h0 other)).map (fun c => c.2.length)).sum) :
+    (hs : ∀ r ∈ self, r < h0.length) (ho : ∀ r ∈ other, r < h0.length) (hok : ∀ m ∈ h0, m.ch ≠ pyNone) :
     ∃ h', Gen.Abs2.equals h0 self other ich its iks ivel
       = .ok (h', sortRefs h0 self, sortRefs h0 other,
              equalsAbs Gen.ppqn { ignoreCh := ich, ignoreTs := its, ignoreKs := iks, ignoreVel := ivel } (deref h0 self) (deref h0 other)) := by
-  obtain ⟨h1, sp, hc1, ⟨x1, hx1⟩, hsp, hok1, hr1⟩ := gip_spec h0 self (eqTypes its iks) Gen.ppqn true hs hok hda
+  obtain ⟨h1, sp, hc1, ⟨x1, hx1⟩, hsp, hok1, hr1⟩ := gip_spec h0 self (eqTypes its iks) Gen.ppqn true hs hok
   have ho1 : ∀ r ∈ other, r < h1.length := by
     intro r hr; have := ho r hr; rw [hx1, List.length_append]; omega
   have hdo : deref h1 other = deref h0 other := by rw [hx1]; exact deref_append_heap _ _ _ ho
-  rw [← hdo] at hdb
-  obtain ⟨h2, op, hc2, ⟨x2, hx2⟩, hop, hok2, hr2⟩ := gip_spec h1 other (eqTypes its iks) Gen.ppqn true ho1 hok1 hdb
+  obtain ⟨h2, op, hc2, ⟨x2, hx2⟩, hop, hok2, hr2⟩ := gip_spec h1 other (eqTypes its iks) Gen.ppqn true ho1 hok1
   rw [hdo] at hop
   have hsp2 : sp.map (fun x => (x.1, deref h2 x.2)) = interleaved (eqTypes its iks) Gen.ppqn true (deref h0 self) := by
     rw [← hsp]
@@ -225,38 +220,5 @@ theorem equals_spec (h0 : Heap) (self other : List Nat) (ich its iks ivel : Bool
     have hl2 : (sp.length == op.length) = false := by simp [hlen]
     simp only [hl1, if_true, hl2, Bool.false_and]
     rfl
-
-/-- FINDING carried over from `get_interleaved_message_pairings`: `equals` raises IndexError when one of the two sequences has
-    channels without pairings -/
-theorem equals_error_self (h0 : Heap) (self other : List Nat) (ich its iks ivel : Bool)
-    (hs : ∀ r ∈ self, r < h0.length) (hok : ∀ m ∈ h0, m.ch ≠ pyNone)
-    (hbad : pairings (eqTypes its iks) Gen.ppqn true (deref h0 self) ≠ [] ∧
-      ((pairings (eqTypes its iks) Gen.ppqn true (deref h0 self)).map (fun c => c.2.length)).sum = 0) :
-    Gen.Abs2.equals h0 self other ich its iks ivel = .error .indexError := by
-  have he := gip_error h0 self (eqTypes its iks) Gen.ppqn true hs hok hbad
-  unfold Gen.Abs2.equals
-  simp only [Bool.not_true, Bool.false_eq_true, if_false]
-  apply eq_types_k
-  simp only [he]
-  rfl
-
-theorem equals_error_other (h0 : Heap) (self other : List Nat) (ich its iks ivel : Bool)
-    (hs : ∀ r ∈ self, r < h0.length) (ho : ∀ r ∈ other, r < h0.length) (hok : ∀ m ∈ h0, m.ch ≠ pyNone)
-    (hda : pairings (eqTypes its iks) Gen.ppqn true (deref h0 self) = [] ∨
-      0 < ((pairings (eqTypes its iks) Gen.ppqn true (deref h0 self)).map (fun c => c.2.length)).sum)
-    (hbad : pairings (eqTypes its iks) Gen.ppqn true (deref h0 other) ≠ [] ∧
-      ((pairings (eqTypes its iks) Gen.ppqn true (deref h0 other)).map (fun c => c.2.length)).sum = 0) :
-    Gen.Abs2.equals h0 self other ich its iks ivel = .error .indexError := by
-  obtain ⟨h1, sp, hc1, ⟨x1, hx1⟩, hsp, hok1, hr1⟩ := gip_spec h0 self (eqTypes its iks) Gen.ppqn true hs hok hda
-  have ho1 : ∀ r ∈ other, r < h1.length := by
-    intro r hr; have := ho r hr; rw [hx1, List.length_append]; omega
-  have hdo : deref h1 other = deref h0 other := by rw [hx1]; exact deref_append_heap _ _ _ ho
-  rw [← hdo] at hbad
-  have he := gip_error h1 other (eqTypes its iks) Gen.ppqn true ho1 hok1 hbad
-  unfold Gen.Abs2.equals
-  simp only [Bool.not_true, Bool.false_eq_true, if_false]
-  apply eq_types_k
-  simp only [hc1, ViewTieL.ok_bind, he]
-  rfl
 
 end SCoda.AbsTie2L
